@@ -537,7 +537,8 @@ EbErrorType load_default_buffer_configuration_settings(
         min_child = 1;
 
         //References. Min to sustain dec order flow (RA-5L-MRP-ON) 7 pictures from previous MGs + 11 needed for curr mini-GoP
-        min_ref = 18;
+        //A six-layer mini-GoP holds 16 reference pictures where a five-layer one holds 8
+        min_ref = scs_ptr->static_config.hierarchical_levels == 5 ? 26 : 18;
 
 
         if (scs_ptr->static_config.look_ahead_distance > 0)
@@ -551,9 +552,9 @@ EbErrorType load_default_buffer_configuration_settings(
         //Pa-References.Min to sustain flow (RA-5L-MRP-ON) -->TODO: derive numbers for other GOP Structures.
         min_paref = 25 + scs_ptr->scd_delay + eos_delay + (scs_ptr->static_config.enable_tpl_la ? needed_lad_pictures : 0);
 
-        if (scs_ptr->static_config.hierarchical_levels == 5 &&
-            core_count == SINGLE_CORE_COUNT) {
-            min_paref += 8;
+        // a six-layer mini-GoP is 16 pictures longer; the minimum is also what the two-core configuration allocates
+        if (scs_ptr->static_config.hierarchical_levels == 5) {
+            min_paref += 16;
         }
 
         if (scs_ptr->static_config.enable_overlays)
